@@ -50,6 +50,7 @@ func lifeRuns(tier string) []base {
 		}},
 		{"price-subunit+zero", func() *Scenario { return scPrice(paramSet("0.1", "0.001"), "p1v", "p0", []Template{tOne, tRep2}, mainO, d, b, m) }},
 		{"mod-main", func() *Scenario { return scMod(defaultParams(), []Template{tMod1, tModPoor, tModCap}, modO, d, b, m) }},
+		{"msvc", func() *Scenario { return scMsvc(defaultParams(), d-1, b-1, m) }},
 	}
 }
 
@@ -116,7 +117,7 @@ func init() {
 			{Name: "bind-ops+two-failures", Sc: scBind(paramSet("0.1", "0.001"), bindOpsSmall(), []Template{tSlash2}, []string{"bad", "ok"}, d+1, b+1, 2), Oracles: o},
 			{Name: "life-super", Sc: scLife(defaultParams(), []Template{tOne, tSuper}, AlphaOpts{RespKinds: []string{"ok", "bad"}, CtxOps: []string{"kill"}}, d+1, b+1, 2), Oracles: o},
 		}
-		runs = append(runs, runsOf(lifeRuns(tier), o, MonFlags{}, "life-main", "life-gap", "mod-main")...)
+		runs = append(runs, runsOf(lifeRuns(tier), o, MonFlags{}, "life-main", "life-gap", "mod-main", "msvc")...)
 		if tier == "thorough" {
 			for _, sl := range []string{"0", "0.001", "1"} {
 				runs = append(runs, RunSpec{Name: "bind-ops+slash" + sl, Sc: scBind(paramSet("0.5", sl), bindOpsFull(), []Template{tSlash}, []string{"bad"}, d, b, m), Oracles: o})
@@ -135,7 +136,7 @@ func init() {
 			{Name: "life-eligibility-flipped-ids", Sc: flip(scLife(defaultParams(), []Template{tRep2, tLong}, eo, d, b, m)), Oracles: o},
 			{Name: "mod-thresholds", Sc: scMod(defaultParams(), []Template{tMod2, tModCap, tModPoor}, modO, d-1, b, m), Oracles: o},
 		}
-		runs = append(runs, runsOf(lifeRuns(tier), o, MonFlags{}, "life-main", "price-subunit+zero", "life-caplow-flipped")...)
+		runs = append(runs, runsOf(lifeRuns(tier), o, MonFlags{}, "life-main", "price-subunit+zero", "life-caplow-flipped", "msvc")...)
 		return runs
 	}})
 	register(&CheckSpec{Prop: "C07", Runs: func(tier string) []RunSpec {
@@ -157,7 +158,7 @@ func init() {
 			{Name: "life-timeouts-1-2", Sc: withFunds(scLife(paramSet("0.1", "0.001"), []Template{tOne, tLong}, wo, d, b, m), 30, 5), Oracles: o, Mon: MonFlags{Req: true}},
 			{Name: "life-timeout-3", Sc: withFunds(scLife(paramSet("0.1", "0.001"), []Template{{Name: "t3", Consumer: "C1", Service: "a", Providers: []string{"P1", "P2"}, Cap: 5, Timeout: 3}}, wo, d, b, m+1), 30, 5), Oracles: o, Mon: MonFlags{Req: true}},
 		}
-		runs = append(runs, runsOf(lifeRuns(tier), o, MonFlags{Req: true}, "life-main", "life-gap", "mod-main")...)
+		runs = append(runs, runsOf(lifeRuns(tier), o, MonFlags{Req: true}, "life-main", "life-gap", "mod-main", "msvc")...)
 		return runs
 	}})
 	register(&CheckSpec{Prop: "C09", Runs: func(tier string) []RunSpec {
@@ -173,7 +174,7 @@ func init() {
 			{Name: "cadence-rep1+long+f3", Sc: withFunds(scLife(paramSet("0.1", "0.001"), []Template{tRep1, tLong, tF3}, AlphaOpts{RespKinds: []string{"ok"}, CtxOps: []string{"pause", "start"}, Updates: []CtxUpdate{updTotalUp}}, d, b, m), 40, 5), Oracles: o, Mon: mf},
 			{Name: "frequency-boundaries", Sc: withFunds(scLife(paramSet("0.1", "0.001"), []Template{tHuge, tMax, tBig}, AlphaOpts{CtxOps: []string{"pause", "start"}}, 5, 4, 2), 40, 5), Oracles: o, Mon: mf},
 		}
-		runs = append(runs, runsOf(lifeRuns(tier), o, mf, "life-main", "life-gap", "life-control", "mod-main")...)
+		runs = append(runs, runsOf(lifeRuns(tier), o, mf, "life-main", "life-gap", "life-control", "mod-main", "msvc")...)
 		return runs
 	}})
 	register(&CheckSpec{Prop: "C11", Runs: func(tier string) []RunSpec {
@@ -184,7 +185,7 @@ func init() {
 			{Name: "life-events", Sc: withFunds(scLife(paramSet("0.1", "0.001"), []Template{tRep2, tInf, tPoor}, ctlO, d, b, m), 40, 1), Oracles: o},
 			{Name: "frequency-boundaries", Sc: withFunds(scLife(paramSet("0.1", "0.001"), []Template{tHuge, tMax, tBig}, AlphaOpts{CtxOps: []string{"pause", "start"}}, 5, 4, 2), 40, 5), Oracles: o},
 		}
-		runs = append(runs, runsOf(lifeRuns(tier), o, MonFlags{}, "life-main", "life-gap", "life-control", "mod-main")...)
+		runs = append(runs, runsOf(lifeRuns(tier), o, MonFlags{}, "life-main", "life-gap", "life-control", "mod-main", "msvc")...)
 		return runs
 	}})
 	register(&CheckSpec{Prop: "C12", Runs: func(tier string) []RunSpec {
@@ -195,7 +196,7 @@ func init() {
 			{Name: "mod-callbacks", Sc: scMod(defaultParams(), []Template{tMod1, tMod2, tModPoor}, modO, d, b, m), Oracles: o, Mon: MonFlags{CB: true}},
 			{Name: "mod-callbacks-oneshot+cap", Sc: scMod(defaultParams(), []Template{tModOne, tModCap}, modO, d, b, m+1), Oracles: o, Mon: MonFlags{CB: true}},
 		}
-		runs = append(runs, runsOf(lifeRuns(tier), o, MonFlags{CB: true}, "life-main", "life-gap", "mod-main")...)
+		runs = append(runs, runsOf(lifeRuns(tier), o, MonFlags{CB: true}, "life-main", "life-gap", "mod-main", "msvc")...)
 		return runs
 	}})
 	register(&CheckSpec{Prop: "C13", Runs: func(tier string) []RunSpec {
@@ -304,7 +305,7 @@ func init() {
 		}
 		o := []Oracle{oracleC20{}}
 		var runs []RunSpec
-		for _, r := range runsOf(lifeRuns(tier), o, MonFlags{}, "life-main", "life-gap", "mod-main") {
+		for _, r := range runsOf(lifeRuns(tier), o, MonFlags{}, "life-main", "life-gap", "mod-main", "msvc") {
 			r.Sc.Depth--
 			r.DetCheck = true
 			runs = append(runs, r)
@@ -331,3 +332,4 @@ func bindOpsSmall() []Action {
 		actUpdate("a", "P1", "O1", 30, "", 0),
 	}
 }
+
